@@ -51,7 +51,7 @@ HARNESSES = [
          flags=LEAK, timeout=300, unwind=70,
          cases=_arr("quick", (0, 1, 3), (4, 8)) + _arr("thorough", (2, 4), (1, 4, 8, 16))),
     dict(name="array_frame", file="array_frame.c", label="bounded(elements<=4)",
-         mode="dfcc", enforce="array_init_copy", malloc_fail=True, native=False, cover=False,
+         mode="dfcc", enforce="array_init_copy", malloc_fail=True, native=False,
          timeout=300, unwind=70,
          cases=_arr("quick", (1, 3), (8,)) + _arr("thorough", (2, 4), (4, 16))),
     dict(name="predef", file="predef.c", label="proved",
@@ -76,8 +76,8 @@ HARNESSES = [
          flags=LEAK, timeout=200, unwind=2,
          cases=[dict(id="db%d_fb%d" % (d, f), defines={"HAVE_DB": d, "HAVE_FB": f}, tier="quick")
                 for d in (0, 1) for f in (0, 1)] +
-               [dict(id="bs4096_db1_fb1", tier="thorough", label="bounded(block_size<=4096)", timeout=1500,
-                     defines={"BS": 4096, "HAVE_DB": 1, "HAVE_FB": 1, "DBS": 4096, "FBS": 1000})]),
+               [dict(id="bs256_db1_fb1", tier="thorough", label="bounded(block_size<=256)", timeout=1500,
+                     defines={"BS": 256, "HAVE_DB": 1, "HAVE_FB": 1, "DBS": 256, "FBS": 100})]),
     dict(name="xattr_reader", file="xattr_reader.c", label="bounded(id_blocks<=4)",
          fp={"destroy": ["xattr_reader_destroy", "c19_obj_destroy"],
              "copy": ["xattr_reader_copy", "c19_obj_copy"],
@@ -129,7 +129,7 @@ HARNESSES = [
          fp={"destroy": ["dir_reader_destroy", "c19_obj_destroy"],
              "copy": ["dir_reader_copy", "c19_obj_copy"],
              "key_compare": "dcache_key_compare", "*": "c19_unreachable_read_at"},
-         flags=LEAK, timeout=1500, unwind=2,
+         flags=LEAK, timeout=3000, unwind=2,
          unwindset=["copy_node:4", "destroy_nodes_dfs:4"] + ["harness.%d:4" % i for i in range(5)],
          cases=[dict(id="dot%d_nn%d" % (d, n), defines={"DOT": d, "NN": n}, tier=t)
                 for d, n, t in ((1, 0, "quick"), (0, 0, "thorough"), (1, 1, "thorough"), (1, 2, "thorough"))]),
